@@ -224,6 +224,10 @@ func (p *jsonPathParser) setConnectedText(targetNode syntaxNode, postfix ...stri
 		if multiIdentifier.isAllWildcard {
 			multiIdentifier.unionQualifier.setConnectedText(targetNode.getConnectedText())
 		}
+		// The inner identifiers stand at the same place of the path.
+		for _, identifier := range multiIdentifier.identifiers {
+			identifier.setConnectedText(targetNode.getConnectedText())
+		}
 	}
 
 	if aggregate, ok := targetNode.(*syntaxAggregateFunction); ok {
@@ -270,6 +274,10 @@ func (p *jsonPathParser) setLastNodeText(text string) {
 	if multiIdentifier, ok := node.(*syntaxChildMultiIdentifier); ok {
 		if multiIdentifier.isAllWildcard {
 			multiIdentifier.unionQualifier.setText(text)
+		}
+		// Errors raised by an inner identifier refer to the selector as written.
+		for _, identifier := range multiIdentifier.identifiers {
+			identifier.setText(text)
 		}
 	}
 }
